@@ -123,6 +123,7 @@ def gen(rng, n):
         scn = lay.scenario([{'cmd': 'rm', 'argv': [pat], 'listdir': rng.choice(['sorted', 'reverse'])}], extra=nodes + scen.canary())
         scns.append(scn)
         metas.append({'pat': pat, 'ents': ents, 'mal': mal})
+        scn['judge_meta'] = metas[-1]                     # so that a replay judges the same entries
     return scns, metas
 
 
@@ -240,4 +241,7 @@ def replay(run, payload):
                 p = unquote(pv[0])
                 vol = '/' if 'share/Trash' in td else os.path.dirname(td if '/.Trash-' in td else os.path.dirname(td))
                 ents.append({'td': td, 'name': e[1].split('/info/')[1][:-10], 'full': p if p.startswith('/') else os.path.join(vol, p)})
+    if scn.get('judge_meta'):
+        judge(run, scn, scn['judge_meta'], res)
+        return
     judge(run, scn, {'pat': scn['steps'][0]['argv'][0], 'ents': ents}, res)
